@@ -121,7 +121,7 @@ def run(prop, tier, seed, replay=None):
     extract_error = None
     gen_changed = False
     try:
-        text = mod.extract(ctx)
+        text = mod.extract(ctx) if hasattr(mod, "extract") else None
         if text is not None:
             gen_changed = leanio.write_if_changed(os.path.join(LEAN, "Generated", prop + ".lean"), text)
     except InfraError:
